@@ -13,7 +13,8 @@ CONSTANTS N, NMin, MaxCons, MaxChain, MaxOps,
           TokKinds,       \* set of [word, tag, edge]
           CLabels, CEdges,
           OpSet,          \* set of op records [name, relc, bare, rules, pos]
-          Programs        \* either {} (free sequences) or a set of op-record sequences
+          Programs,       \* either {} (free sequences) or a set of op-record sequences
+          WC              \* <<word atom, characters>> pairs for trace words (ptb_delete_traces)
 VARIABLES tree0, tree, pre, hist, phase, mem
 vars == <<tree0, tree, pre, hist, phase, mem>>
 
@@ -53,7 +54,9 @@ FreshIds(T, base) ==
          ELSE [x EXCEPT !.a.id = base + (CHOOSE i \in 1..Len(zs) : zs[i] = x)] : x \in @}]
 
 Did(n) == \E i \in 1..Len(hist) : hist[i].name = n
+Dropped == Len(hist) > 0 /\ hist[Len(hist)].name = "filter_by_length" /\ FilterDrops(tree, hist[Len(hist)])
 Enabled(o, T) ==
+  ~Dropped /\
   CASE o.name = "boyd_split" -> HeadsMarked(T) /\ OneHead(T)
     [] o.name = "raising" -> \A x \in T.nodes : x.a.split \in {"T", "F"}
     [] o.name \in {"punctuation_verylow", "punctuation_symetrify"} -> Did("root_attach")
@@ -61,6 +64,7 @@ Enabled(o, T) ==
     [] o.name = "collapse_unary_chains" -> T.n > 1
     [] o.name = "uncollapse_unary_chains" -> Len(hist) > 0 /\ hist[Len(hist)].name = "collapse_unary_chains"
     [] o.name = "delete_terminal" -> o.pos <= T.n /\ T.n > 1
+    [] o.name = "ptb_delete_traces" -> TracePos(T) \ KeptTraces(T, o, WC) # 1..T.n
     [] OTHER -> TRUE
 Apply(o, T) ==
   CASE o.name = "root_attach" -> RootAttach(T)
@@ -77,6 +81,10 @@ Apply(o, T) ==
     [] o.name = "uncollapse_unary_chains" -> Uncollapse(T)
     [] o.name = "punctuation_delete" -> PunctDelete(T)
     [] o.name = "delete_terminal" -> DeleteToks(T, {o.pos})
+    [] o.name = "ptb_delete_traces" -> PtbDeleteTraces(T, o, WC)
+    [] o.name = "insert_terminals" -> InsertTerminals(T, o.rows)
+    [] o.name = "substitute_terminals" -> SubstituteTerminals(T, o.rows)
+    [] o.name = "filter_by_length" -> T
 
 AllowedNext(o) ==
   IF Programs = {} THEN Len(hist) < MaxOps
@@ -94,11 +102,12 @@ Next == Build \/ Seal \/ Op
 InvTreeOK == TreeOK(tree)
 LastOp == hist[Len(hist)]
 InvClauses == (phase = "ops" /\ Len(hist) > 0 /\ TreeOK(tree)) =>
-                 Clauses(LastOp, pre, tree, mem) = {}
+                 Clauses(LastOp, pre, tree, mem, WC) = {}
 InvRetRoot == (phase = "ops" /\ Len(hist) > 0 /\ LastOp.name = "uncollapse_unary_chains")
                  => UncollapseRetIsRoot(pre)
 OpLog(o) == [name |-> o.name, relc |-> o.relc, bare |-> o.bare, pos |-> o.pos,
-             preset |-> o.preset]
+             preset |-> o.preset, keep |-> o.keep, flags |-> o.flags, rows |-> o.rows,
+             fop |-> o.fop, fval |-> o.fval]
 Emit == (phase = "ops" /\ Len(hist) > 0) =>
            PrintT("CASE " \o ToJson([tree |-> tree0,
                                      ops |-> [i \in 1..Len(hist) |-> OpLog(hist[i])]]))
